@@ -80,7 +80,10 @@ Definition run_moving (ints rad coe ang fl chk smp tg hv : sx) : sx :=
                   p_coeffs := coeffs; p_rotmat := rotmat;
                   p_xvalid := nz xv; p_kfold := nz kf; p_hascode := nz hc; p_eps := eps9;
                   p_checkers := checkers |} in
-      let tab := combine (map (fun s => let inc := tincr p t s in (nthQ inc 0, nthQ inc 1)) samples) sectors in
+      (* samples with an undefined coordinate never reach the sector computation: their harvested entry is meaningless and
+         must not shadow a real sample whose increment coincides with their zero-filled one *)
+      let tab := map snd (filter (fun be => fst be)
+                   (combine cdef (combine (map (fun s => let inc := tincr p t s in (nthQ inc 0, nthQ inc 1)) samples) sectors))) in
       let oracle := mk_oracle tab in
       let res := moving_fixed_x oracle (nz useball) p t xsamples ellig in
       let taken := ball_taken (nz useball) p xsamples ellig in
